@@ -6,6 +6,7 @@ import (
 	"context"
 	"errors"
 	"fmt"
+	"math/big"
 	"runtime"
 	"sort"
 	"strconv"
@@ -422,7 +423,7 @@ func runScenarioMode(t *testing.T, sc Scenario, freeRun bool) (ex execution) {
 			}
 			m := newMessage(-1, topics)
 			w.add(Rec{K: "pubcall", Pub: -1, Ser: serialOf(m)})
-			err := j.Publish(m, topics)
+			err := j.Publish(m, aliased(topics))
 			w.add(Rec{K: "pubret", Pub: -1, Ser: serialOf(m), Err: err})
 		}
 		synctest.Wait()
@@ -471,7 +472,7 @@ func runScenarioMode(t *testing.T, sc Scenario, freeRun bool) (ex execution) {
 					defer end(name)
 					for k, m := range msgs {
 						w.add(Rec{K: "pubcall", Pub: pi, Ser: serialOf(m)})
-						err := j.Publish(m, p.Msgs[k])
+						err := j.Publish(m, aliased(p.Msgs[k]))
 						w.add(Rec{K: "pubret", Pub: pi, Ser: serialOf(m), Err: err})
 					}
 				}()
@@ -645,8 +646,12 @@ func resolveID(w *world, sc Scenario, s SubSpec) sse.EventID {
 	w.mu.Unlock()
 	never := func() sse.EventID {
 		if sc.Auto {
-			if s.IDK%2 == 0 {
+			switch s.IDK % 3 {
+			case 0:
 				return sse.ID(strconv.Itoa(len(ids) + 1000 + s.IDK))
+			case 2:
+				// a never-issued 20-digit number just above 2^64 (equal to an issued ID modulo 2^64)
+				return sse.ID(new(big.Int).Add(new(big.Int).Lsh(big.NewInt(1), 64), big.NewInt(int64(max(len(ids)-2-s.IDK/3, 0)))).String())
 			}
 			return sse.ID(fmt.Sprintf("never-%d", s.IDK))
 		}
@@ -688,4 +693,21 @@ func fmtLog(l []Rec) string {
 		fmt.Fprintf(&b, "  %3d %s\n", i, r.String())
 	}
 	return b.String()
+}
+
+// aliasBacking is one array that every topic list which is a prefix of widePool is a view of:
+// callers commonly publish with slices of one array, so consecutive messages may carry
+// topic slices that start at the same address and differ only in length. Read-only.
+var aliasBacking = append([]string(nil), widePool...)
+
+func aliased(topics []string) []string {
+	if len(topics) == 0 || len(topics) > len(widePool) {
+		return topics
+	}
+	for i, tp := range topics {
+		if tp != widePool[i] {
+			return topics
+		}
+	}
+	return aliasBacking[:len(topics):len(topics)]
 }
